@@ -55,17 +55,23 @@ def _const_fraction(node, text):
         raise Untranslatable("constant %r" % seg)
 
 
-def py_to_q(node, text, atoms):
+def rlit(fr):
+    fr = Fraction(fr)
+    return "(IZR (%d) / IZR %d)" % (fr.numerator, fr.denominator)
+
+
+def py_to_q(node, text, atoms, lit=None):
     """Python arithmetic expression -> Coq term over Q.  `atoms` maps the unparsed text of a
     sub-expression to a Coq variable; anything else outside + - * / ** (small integer exponent),
     unary minus and numeric literals aborts the translation."""
     key = ast.unparse(node)
     if key in atoms:
         return atoms[key]
+    lit = lit or qlit
     if isinstance(node, ast.Constant):
-        return qlit(_const_fraction(node, text))
+        return lit(_const_fraction(node, text))
     if isinstance(node, ast.UnaryOp) and isinstance(node.op, (ast.USub, ast.UAdd)):
-        inner = py_to_q(node.operand, text, atoms)
+        inner = py_to_q(node.operand, text, atoms, lit)
         return "(- %s)" % inner if isinstance(node.op, ast.USub) else inner
     if isinstance(node, ast.BinOp):
         if isinstance(node.op, ast.Pow):
@@ -74,11 +80,11 @@ def py_to_q(node, text, atoms):
             e = _const_fraction(node.right, text)
             if e.denominator != 1 or not (0 <= e.numerator <= 4):
                 raise Untranslatable("exponent " + key)
-            return "(%s ^ %d)" % (py_to_q(node.left, text, atoms), e.numerator)
+            return "(%s ^ %d)" % (py_to_q(node.left, text, atoms, lit), e.numerator)
         ops = {ast.Add: "+", ast.Sub: "-", ast.Mult: "*", ast.Div: "/"}
         for k, sym in ops.items():
             if isinstance(node.op, k):
-                return "(%s %s %s)" % (py_to_q(node.left, text, atoms), sym, py_to_q(node.right, text, atoms))
+                return "(%s %s %s)" % (py_to_q(node.left, text, atoms, lit), sym, py_to_q(node.right, text, atoms, lit))
     raise Untranslatable("expression outside the grammar: " + key)
 
 
@@ -229,7 +235,7 @@ def _rdf_nbins(text, fn):
 
 def build_formulas():
     parts = ["(* GENERATED by harness/props/C16.py:translate from /repo -- do not edit. *)",
-             "From Coq Require Import QArith.", "Open Scope Q_scope.", ""]
+             "From Coq Require Import QArith.", "Local Open Scope Q_scope.", ""]
     # --- Karplus
     text = _src("mdtraj/nmr/scalar_couplings.py")
     tree = ast.parse(text)
@@ -325,7 +331,7 @@ def _karplus_tables(text):
 
 def build_tables():
     parts = ["(* GENERATED by harness/props/C16.py:translate from /repo -- do not edit. *)",
-             "From Coq Require Import QArith String List.", "Import ListNotations.", "Open Scope string_scope.", ""]
+             "From Coq Require Import QArith String List.", "Import ListNotations.", "Local Open Scope string_scope.", ""]
     # protein residue names
     text = _src("mdtraj/core/residue_names.py")
     tree = ast.parse(text)
@@ -373,13 +379,1001 @@ def build_tables():
     ns = sorted(e.value for e in v.values[0].comparators[0].elts)
     parts += ["(* mdtraj/core/topology.py:Atom.is_sidechain = name not in this set and residue.is_protein *)",
               "Definition not_sidechain_names : list string := [%s]." % "; ".join('"%s"' % s for s in ns), ""]
-    parts += ["Open Scope Q_scope."] + _karplus_tables(_src("mdtraj/nmr/scalar_couplings.py"))
+    # element masses
+    text = _src("mdtraj/core/element.py")
+    rows = []
+    for n in ast.parse(text).body:
+        if isinstance(n, ast.Assign) and isinstance(n.value, ast.Call) and ast.unparse(n.value.func) == "Element":
+            a = n.value.args
+            if len(a) != 5 or not isinstance(a[2], ast.Constant) or not isinstance(a[3], ast.Constant):
+                raise Untranslatable("Element(...) call shape")
+            rows.append((a[2].value, _const_fraction(a[3], text)))
+    if len(rows) < 100:
+        raise Untranslatable("element table")
+    lines = ["(%s, %s)" % (cstr(sym), qlit(m)) for sym, m in rows]
+    parts += ["(* mdtraj/core/element.py: (symbol, mass) *)",
+              "Definition element_masses : list (string * Q) :=\n  [" + ";\n   ".join(lines) + "].", ""]
+    parts += ["Local Open Scope Q_scope."] + _karplus_tables(_src("mdtraj/nmr/scalar_couplings.py"))
     return "\n".join(parts) + "\n"
+
+
+def build_formulas_r():
+    """the Karplus relation once more over R (for the trigonometric form of the theorem)"""
+    text = _src("mdtraj/nmr/scalar_couplings.py")
+    fn = _find_func(ast.parse(text), "_J3_function")
+    rets = [n for n in fn.body if isinstance(n, ast.Return)]
+    if len(rets) != 1:
+        raise Untranslatable("_J3_function body")
+    e = py_to_q(rets[0].value, text, {"A": "A", "B": "B", "C": "C", "np.cos(phi + phi0)": "(cos (phi + phi0))"}, rlit)
+    return "\n".join(["(* GENERATED by harness/props/C16.py:translate from /repo -- do not edit. *)",
+                      "From Coq Require Import Reals.", "Local Open Scope R_scope.", "",
+                      "(* mdtraj/nmr/scalar_couplings.py:_J3_function *)",
+                      "Definition j3_function_R (phi A B C phi0 : R) : R := %s." % e, ""])
 
 
 def translate(ctx):
     t = build_tables()
     f = build_formulas()
+    fr = build_formulas_r()
     ctx.write_gen("Gen/DescTables.v", t)
     ctx.write_gen("Gen/DescFormulas.v", f)
+    ctx.write_gen("Gen/DescFormulasR.v", fr)
     ctx.notes.setdefault("coverage_extra", {})["translator"] = "ok: Gen/DescTables.v, Gen/DescFormulas.v regenerated"
+
+
+# =====================================================================================
+# generic helpers
+# =====================================================================================
+RULE = ("topologies are assembled from residue templates (full/heavy-only/truncated amino acids, GLY with and "
+        "without hydrogens, caps, water, ions, a ligand, Ca2+ named CA, lower-case and duplicate CA, deuterium) with "
+        "random atom deletions and chain breaks; coordinates are integers/64 nm (float32-exact), cells orthorhombic on "
+        "the same grid; a case is non-trivial when the compared observable depends on more than one atom/pair/bin; "
+        "distinct by hash of the full case")
+TRUSTED = ["harness/impl/desc_impl.py (builds the Topology/Trajectory from the case, converts float results to exact "
+           "integers/rationals)",
+           "generator and float64 closed-form oracles in harness/props/C16.py; discrete comparisons are done by vm_compute "
+           "inside coqc",
+           "translator harness/props/C16.py:build_tables/build_formulas (Python ast / regex -> Gallina)"]
+ASSUMPTIONS = ["coordinates and cell lengths are multiples of 1/64 nm below 8 nm, so float32 differences and squared "
+               "distances are exact and sqrt is correctly rounded: squared distances are recovered exactly",
+               "periodic cases use orthorhombic cells (triclinic minimum image is C05's subject)",
+               "atom and residue names are ASCII",
+               "float64 results are compared with exact rationals under the relative bounds listed in coverage.bounds"]
+
+UNIT = 64
+SCHEMES = ["ca", "closest", "closest-heavy", "sidechain", "sidechain-heavy"]
+
+
+def coq_values(ctx, requires, in_ty, fn, inputs, shard=60, prelude=""):
+    """vm_compute `fn input` for every input inside coqc; fn must return nested lists of Z only.
+    Returns (list of parsed python lists, errors)."""
+    from common import COQ
+    import subprocess
+    out = [None] * len(inputs)
+    errors = []
+    jobs = []
+    for si in range(0, len(inputs), shard):
+        sh = inputs[si:si + shard]
+        lines = ["From Coq Require Import ZArith List String Bool Ascii QArith.", "Import ListNotations.",
+                 "Open Scope nat_scope."]
+        lines += ["Require Import %s." % r for r in requires]
+        lines.append(prelude)
+        lines.append("Definition inputs : list (%s) := [" % in_ty)
+        lines.append(";\n".join(sh))
+        lines.append("].")
+        lines.append("Open Scope Z_scope.")
+        lines.append('Definition tag := "VALUES"%string.')
+        lines.append("Eval vm_compute in (tag, map (%s) inputs)." % fn)
+        p = os.path.join(ctx.tmp, "values_%d_%d.v" % (id(inputs) % 100000, si))
+        with open(p, "w") as fh:
+            fh.write("\n".join(lines) + "\n")
+        jobs.append((si, len(sh), p))
+    running = []
+    todo = list(jobs)
+
+    def reap(pr, si, n):
+        o = pr.communicate()[0]
+        if pr.returncode != 0:
+            errors.append(o[-3000:])
+            return
+        m = re.search(r'\("VALUES"(?:%string)?,\s*(.*)\)\s*:\s', o, re.S)
+        if not m:
+            errors.append("unparsed coqc output: " + o[-1500:])
+            return
+        txt = m.group(1).replace("%Z", "").replace(";", ",").replace("nil", "[]")
+        try:
+            vals = json.loads(txt)
+        except ValueError:
+            errors.append("unparsed values: " + txt[:500])
+            return
+        if len(vals) != n:
+            errors.append("value count mismatch")
+            return
+        out[si:si + n] = vals
+
+    while todo or running:
+        while todo and len(running) < 4:
+            si, n, p = todo.pop(0)
+            pr = subprocess.Popen(["timeout", "900", "coqc", "-Q", COQ, "MD", p], cwd=ctx.tmp,
+                                  stdout=subprocess.PIPE, stderr=subprocess.STDOUT, text=True)
+            running.append((pr, si, n))
+        pr, si, n = running.pop(0)
+        reap(pr, si, n)
+    return out, errors
+
+
+def run_impl(ctx, cases):
+    res = ctx.run_impl("desc_impl.py", {"cases": cases})["results"]
+    for c, r in zip(cases, res):
+        if "harness_err" in r:
+            raise RuntimeError("impl runner problem on %s: %s" % (c.get("kind"), r))
+    return res
+
+
+# ---- Coq printers
+def c_raw_top(top):
+    return clist(["(%s, %s, %s)" % (cstr(rn), cnat(ch), clist(["(%s, %s)" % (cstr(a), cstr(e)) for a, e in atoms]))
+                  for rn, ch, atoms in top])
+
+
+def c_vec(v):
+    return "(%s, %s, %s)" % (cz(v[0]), cz(v[1]), cz(v[2]))
+
+
+def c_frames(xyz):
+    return clist([clist([c_vec(v) for v in f]) for f in xyz])
+
+
+def c_pairs_nat(ps):
+    return clist(["(%s, %s)" % (cnat(a), cnat(b)) for a, b in ps])
+
+
+# =====================================================================================
+# topology generator
+# =====================================================================================
+def _t(name, atoms):
+    return (name, [(a, e) for a, e in atoms])
+
+
+TEMPLATES = {
+    "ALA": _t("ALA", [("N", "N"), ("H", "H"), ("CA", "C"), ("HA", "H"), ("CB", "C"), ("HB1", "H"), ("HB2", "H"),
+                      ("C", "C"), ("O", "O")]),
+    "GLYH": _t("GLY", [("N", "N"), ("H", "H"), ("CA", "C"), ("HA2", "H"), ("HA3", "H"), ("C", "C"), ("O", "O")]),
+    "GLY": _t("GLY", [("N", "N"), ("CA", "C"), ("C", "C"), ("O", "O")]),
+    "SER": _t("SER", [("N", "N"), ("CA", "C"), ("CB", "C"), ("OG", "O"), ("HG", "H"), ("C", "C"), ("O", "O")]),
+    "LYS": _t("LYS", [("N", "N"), ("CA", "C"), ("CB", "C"), ("CG", "C"), ("CD", "C"), ("CE", "C"), ("NZ", "N"),
+                      ("HZ1", "H"), ("HZ2", "H"), ("C", "C"), ("O", "O")]),
+    "VALD": _t("VAL", [("N", "N"), ("CA", "C"), ("CB", "C"), ("DG1", "D"), ("CG2", "C"), ("C", "C")]),
+    "ACE": _t("ACE", [("CH3", "C"), ("C", "C"), ("O", "O"), ("H1", "H")]),
+    "NME": _t("NME", [("N", "N"), ("C", "C"), ("H", "H")]),
+    "NOCA": _t("THR", [("N", "N"), ("CB", "C"), ("OG1", "O"), ("HG1", "H"), ("C", "C")]),
+    "HOH": _t("HOH", [("O", "O"), ("H1", "H"), ("H2", "H")]),
+    "NA": _t("NA", [("NA", "Na")]),
+    "CL": _t("CL", [("CL", "Cl")]),
+    "CAION": _t("CA", [("CA", "Ca")]),
+    "LIG": _t("LIG", [("C1", "C"), ("O1", "O"), ("H1", "H"), ("N1", "N")]),
+    "LOWCA": _t("ALA", [("N", "N"), ("ca", "C"), ("CB", "C"), ("C", "C")]),
+    "TWOCA": _t("ALA", [("N", "N"), ("CA", "C"), ("ca", "C"), ("CB", "C")]),
+    "UNKCA": _t("XYZ", [("N", "N"), ("CA", "C"), ("CB", "C"), ("HB", "H")]),
+}
+COMMON = ["ALA", "GLYH", "GLY", "SER", "LYS", "ALA", "SER", "LYS", "VALD"]
+ODD = ["ACE", "NME", "NOCA", "HOH", "HOH", "NA", "CL", "CAION", "LIG", "LOWCA", "UNKCA"]
+
+
+def gen_topology(rng, n_res, p_odd=0.3, p_twoca=0.0, p_drop=0.25, max_chains=3):
+    top = []
+    chain = 0
+    for i in range(n_res):
+        if i and rng.random() < 0.15 and chain < max_chains - 1:
+            chain += 1
+        if rng.random() < p_twoca:
+            key = "TWOCA"
+        elif rng.random() < p_odd:
+            key = rng.choice(ODD)
+        else:
+            key = rng.choice(COMMON)
+        name, atoms = TEMPLATES[key]
+        atoms = list(atoms)
+        if len(atoms) > 2 and rng.random() < p_drop:
+            for _ in range(rng.randint(1, max(1, len(atoms) // 3))):
+                atoms.pop(rng.randrange(len(atoms)))
+        top.append([name, chain, [list(a) for a in atoms]])
+    return top
+
+
+def top_natoms(top):
+    return sum(len(r[2]) for r in top)
+
+
+def gen_xyz(rng, n_frames, n_atoms, span=256):
+    return [[[rng.randrange(span), rng.randrange(span), rng.randrange(span)] for _ in range(n_atoms)]
+            for _ in range(n_frames)]
+
+
+def gen_box(rng, lo=160, hi=320):
+    return [rng.randrange(lo, hi), rng.randrange(lo, hi), rng.randrange(lo, hi)]
+
+
+# =====================================================================================
+# contacts
+# =====================================================================================
+ERRCODES = [(r"No acceptable residue pairs", "ENoPairs"), (r"not in the permitted range", "ERange"),
+            (r"More than 1 alpha carbon", "EManyCA"), (r"atom_pairs must be ndim 2", "EEmptyCA"),
+            (r"zero-size array to reduction operation", "EZeroSize"),
+            (r"truth value of an array", "EAmbiguous")]
+
+
+def gen_contacts_case(rng, i):
+    n_res = rng.randint(4, 9)
+    top = gen_topology(rng, n_res, p_odd=rng.choice([0.0, 0.25, 0.5]), p_twoca=0.03 if i % 7 == 3 else 0.0)
+    na = top_natoms(top)
+    nf = rng.randint(1, 2)
+    scheme = SCHEMES[i % 5]
+    case = {"kind": "contacts", "top": top, "unit": UNIT, "xyz": gen_xyz(rng, nf, na),
+            "box": gen_box(rng) if rng.random() < 0.6 else None, "periodic": rng.random() < 0.7,
+            "scheme": scheme, "soft_min": (i // 5) % 3 == 2, "beta": None, "squareform": rng.random() < 0.4}
+    if case["soft_min"] and rng.random() < 0.5:
+        case["beta"] = rng.choice([5, 10, 20, 40])
+    if (i // 15) % 2 == 0:
+        case["contacts"] = "all"
+        if rng.random() < 0.4:
+            case["ignore_nonprotein"] = rng.random() < 0.5
+    else:
+        k = rng.randint(1, 6)
+        prs = [[rng.randrange(n_res), rng.randrange(n_res)] for _ in range(k)]
+        if rng.random() < 0.06:
+            prs[rng.randrange(k)][rng.randrange(2)] = rng.choice([-1, n_res, n_res + 2])
+        case["contacts"] = prs
+        case["as_array"] = rng.random() < 0.5
+    if scheme.upper() != scheme and rng.random() < 0.1:
+        case["scheme"] = scheme.upper()
+    return case
+
+
+def contacts_coq_case(case, strict):
+    c = case["contacts"]
+    if c == "all":
+        cs = "(CAll %s)" % cbool(case.get("ignore_nonprotein", True))
+    else:
+        cs = "(CExplicit %s)" % clist(["(%s, %s)" % (cz(a), cz(b)) for a, b in c])
+    box = "None" if case["box"] is None else "(Some %s)" % c_vec(case["box"])
+    return "(%s, %s, %s, %s, %s, %s, %s)" % (cbool(strict), c_raw_top(case["top"]),
+                                            cnat(SCHEMES.index(case["scheme"].lower())), cs, box,
+                                            cbool(case["periodic"]), c_frames(case["xyz"]))
+
+
+def contacts_expected(res):
+    if "err" in res:
+        for pat, name in ERRCODES:
+            if re.search(pat, res["msg"]):
+                return "(HErr %s)" % name
+        return None
+    return "(HOk %s %s)" % (c_pairs_nat(res["pairs"]), clist([clist([cz(v) for v in row]) for row in res["d2"]]))
+
+
+def softmin_closed_form(d2s, beta):
+    """beta / log(sum exp(beta/d_i)) in float64, evaluated stably (log-sum-exp)."""
+    xs = [beta / (math.sqrt(m) / UNIT) for m in d2s]
+    mx = max(xs)
+    return beta / (mx + math.log(math.fsum(math.exp(x - mx) for x in xs)))
+
+
+def is_hard(case):
+    return (not case["soft_min"]) or case["scheme"].lower() == "ca"
+
+
+def check_contacts(ctx, cases, results):
+    # ---------- hard minimum / CA: exact comparison inside coqc
+    hard = [i for i, c in enumerate(cases) if is_hard(c)]
+    jobs, coqcases = [], []
+    for i in hard:
+        c, r = cases[i], results[i]
+        if "err" not in r and r["resid"] > 1e-5:
+            ctx.break_("correspondence:contacts-exactness", "squared distance not recovered exactly (residual %g) on %s"
+                       % (r["resid"], json.dumps(c)[:300]))
+            continue
+        exp = contacts_expected(r)
+        if exp is None:
+            ctx.fail("compute_contacts raises an unexpected %s" % r["err"], c, observed=r, expected="model result",
+                     tags={"kind": "contacts", "explained_by": None})
+            continue
+        variants = [False]
+        if c["scheme"].lower() == "ca" and c.get("as_array") and c["contacts"] != "all":
+            variants.append(True)
+        for strict in variants:
+            jobs.append((i, strict))
+            coqcases.append((contacts_coq_case(c, strict), exp))
+    bad, errs = ctx.coq_mismatches(["MD.Desc.ContactsModel"], ("ccase", "hres"), "hres_eqb", "run_contacts_min",
+                                   coqcases, shard=100)
+    if errs:
+        ctx.break_("correspondence:coqc-evaluation(contacts)", "\n".join(errs))
+        return
+    badset = {jobs[k] for k in bad}
+    for i in hard:
+        if (i, False) in badset:
+            c, r = cases[i], results[i]
+            if (i, True) in [j for j in jobs] and (i, True) not in badset:
+                ctx.fail("compute_contacts(scheme='ca', contacts=<ndarray>) fails instead of skipping a pair without CA",
+                         c, observed=r, expected="pair skipped (Coq contacts false ...)",
+                         tags={"kind": "contacts", "explained_by": "ca_array_cur"})
+            else:
+                ctx.fail("compute_contacts: pairs/distances differ from the minimum over the designated atom pairs",
+                         c, observed=r, expected="Coq run_contacts_min", tags={"kind": "contacts", "explained_by": None})
+    # ---------- soft minimum: slices from the model, closed form in float64
+    soft = [i for i, c in enumerate(cases) if not is_hard(c)]
+    vals, errs = coq_values(ctx, ["MD.Desc.ContactsModel"], "ccase", "fun c => enc_cres (run_contacts_slices c)",
+                            [contacts_coq_case(cases[i], False) for i in soft])
+    if errs:
+        ctx.break_("correspondence:coqc-evaluation(contact slices)", "\n".join(errs))
+        return
+    for i, v in zip(soft, vals):
+        c, r = cases[i], results[i]
+        beta = c["beta"] if c["beta"] is not None else 20
+        if len(v) == 1 and len(v[0]) == 1 and len(v[0][0]) == 1 and v[0][0][0] < 0:
+            code = -v[0][0][0]
+            name = {1: "ENoPairs", 2: "ERange", 3: "EManyCA", 4: "EEmptyCA", 5: "EZeroSize", 6: "EAmbiguous"}.get(code)
+            if "err" not in r or contacts_expected(r) != "(HErr %s)" % name:
+                ctx.fail("compute_contacts(soft_min): error behaviour differs from the model", c, observed=r,
+                         expected=name, tags={"kind": "contacts", "explained_by": None})
+            continue
+        if "err" in r:
+            ctx.fail("compute_contacts(soft_min) raises %s where the model returns distances" % r["err"], c,
+                     observed=r, expected="distances", tags={"kind": "contacts", "explained_by": None})
+            continue
+        mpairs, slices = v[0], v[1:]
+        if r["pairs"] != mpairs:
+            ctx.fail("compute_contacts(soft_min): residue_pairs differ from the model", c, observed=r["pairs"],
+                     expected=mpairs, tags={"kind": "contacts", "explained_by": None})
+            continue
+        for fi, row in enumerate(slices):
+            for k, sl in enumerate(row):
+                num, den = r["values"][fi][k]
+                got = None if isinstance(num, str) else num / den
+                if not sl:
+                    ctx.fail("compute_contacts(soft_min): no designated atom pair, yet a value is returned",
+                             c, observed=r["values"][fi][k], expected="refusal (the minimum is refused: ValueError)",
+                             tags={"kind": "contacts", "explained_by": "softmin_empty_cur"
+                                   if got == 0.0 and r["signbit"][fi][k] else None})
+                    continue
+                if min(sl) == 0:
+                    ctx.notes.setdefault("coverage_extra", {}).setdefault("excluded", {}).setdefault("softmin_d0", 0)
+                    ctx.notes["coverage_extra"]["excluded"]["softmin_d0"] += 1
+                    continue
+                want = softmin_closed_form(sl, beta)
+                if got is None or abs(got - want) > 2e-5 * want:
+                    overflow = beta / (math.sqrt(min(sl)) / UNIT) > 88.0
+                    ctx.fail("compute_contacts(soft_min): value differs from beta/log(sum(exp(beta/d))) in double precision",
+                             c, observed=got, expected=want,
+                             tags={"kind": "contacts", "pair": k, "frame": fi,
+                                   "explained_by": "softmin_f32_overflow_cur" if (overflow and got == 0.0) else None})
+    # ---------- squareform applied to the returned labels
+    sq_in, sq_exp, sq_idx = [], [], []
+    for i, (c, r) in enumerate(zip(cases, results)):
+        if not c.get("squareform") or "err" in r or not is_hard(c):
+            continue
+        if "sq_err" in r:
+            ctx.fail("squareform refuses the output of compute_contacts", c, observed=r["sq_err"], expected="maps",
+                     tags={"kind": "squareform", "explained_by": None})
+            continue
+        for fi, row in enumerate(r["d2"]):
+            sq_idx.append(i)
+            sq_in.append(("(%s, %s)" % (clist([cz(x) for x in row]), c_pairs_nat(r["pairs"])),
+                          clist([clist([cz(x) for x in mr]) for mr in r["sq"][fi]])))
+    bad, errs = ctx.coq_mismatches(["MD.Desc.ContactsModel"], ("list Z * list (nat * nat)", "list (list Z)"),
+                                   "list_eqb (list_eqb Z.eqb)", "(fun x => squareform (fst x) (snd x))", sq_in, shard=200)
+    if errs:
+        ctx.break_("correspondence:coqc-evaluation(squareform)", "\n".join(errs))
+    for k in bad:
+        ctx.fail("squareform(compute_contacts(...)): contact map differs from the labelled distances", cases[sq_idx[k]],
+                 observed=results[sq_idx[k]].get("sq"), expected="Coq squareform", tags={"kind": "squareform", "explained_by": None})
+    for c in cases:
+        nt = c["contacts"] == "all" or len(c["contacts"]) > 1
+        ctx.count(c, nontrivial=nt, bucket="contacts/%s/%s/%s%s" % (
+            c["scheme"].lower(), "all" if c["contacts"] == "all" else "explicit",
+            "soft" if c["soft_min"] else "min", "/pbc" if (c["periodic"] and c["box"]) else ""))
+
+
+def gen_squareform_case(rng):
+    n = rng.randint(2, 7)
+    k = rng.randint(1, 8)
+    seen, pairs = set(), []
+    for _ in range(k):
+        p = (rng.randrange(n), rng.randrange(n))
+        if p in seen:
+            continue
+        if (p[1], p[0]) in seen and rng.random() < 0.8:
+            continue
+        seen.add(p)
+        pairs.append(list(p))
+    nf = rng.randint(1, 2)
+    d = [[rng.randint(1, 999) for _ in pairs] for _ in range(nf)]
+    return {"kind": "squareform", "d": d, "pairs": pairs}
+
+
+def check_squareform(ctx, cases, results):
+    inp, idx = [], []
+    for i, (c, r) in enumerate(zip(cases, results)):
+        ctx.count(c, nontrivial=len(c["pairs"]) > 1, bucket="squareform")
+        if "err" in r:
+            ctx.fail("squareform refuses valid input", c, observed=r, expected="maps", tags={"kind": "squareform", "explained_by": None})
+            continue
+        if not r["exact"]:
+            ctx.break_("correspondence:squareform-exactness", "non-integer entries")
+            continue
+        for fi, row in enumerate(c["d"]):
+            idx.append(i)
+            inp.append(("(%s, %s)" % (clist([cz(x) for x in row]), c_pairs_nat(c["pairs"])),
+                        clist([clist([cz(x) for x in mr]) for mr in r["m"][fi]])))
+    bad, errs = ctx.coq_mismatches(["MD.Desc.ContactsModel"], ("list Z * list (nat * nat)", "list (list Z)"),
+                                   "list_eqb (list_eqb Z.eqb)", "(fun x => squareform (fst x) (snd x))", inp, shard=200)
+    if errs:
+        ctx.break_("correspondence:coqc-evaluation(squareform)", "\n".join(errs))
+    for k in sorted(set(idx[b] for b in bad)):
+        ctx.fail("squareform: contact map differs from the labelled distances", cases[k], observed=results[k],
+                 expected="Coq squareform", tags={"kind": "squareform", "explained_by": None})
+
+
+# =====================================================================================
+# float64 magnitudes compared with exact rationals inside coqc
+# =====================================================================================
+def cq(nd):
+    n, d = nd
+    return "(Qmake (%d) %d)" % (n, d)
+
+
+def cqf(fr):
+    fr = Fraction(fr)
+    return "(Qmake (%d) %d)" % (fr.numerator, fr.denominator)
+
+
+def finite(x):
+    """nested [n, d] lists contain no nan/inf marker"""
+    if isinstance(x, list) and len(x) == 2 and not isinstance(x[0], list):
+        return not isinstance(x[0], str)
+    return all(finite(y) for y in x)
+
+
+def flat_q(x):
+    if isinstance(x, list) and len(x) == 2 and not isinstance(x[0], list):
+        return [x]
+    out = []
+    for y in x:
+        out += flat_q(y)
+    return out
+
+
+def c_zframes(xyz):
+    return clist([clist([c_vec(v) for v in f]) for f in xyz])
+
+
+QPRE = "From Coq Require Import QArith.\nClose Scope Q_scope."
+
+BOUNDS = {
+    "centre_abs_nm": "1e-11", "gyration_abs_nm2": "1e-10", "principal_moment_coefficients_rel": "1e-9",
+    "shape_descriptor_rel": "1e-9", "rg2_abs_nm2 (float32 kernel)": "2e-5", "density_rel (float32 cell volume)": "2e-6",
+    "rdf_mixed (float32 cell volume)": "1e-5", "softmin_rel (float32)": "2e-5", "drid_rel": "1e-9",
+    "karplus_abs_Hz (float32 phi)": "1e-4*(|A|+|B|+|C|)", "dipole_abs": "1e-9",
+}
+
+
+def gen_geom_case(rng, kind, n_res=None):
+    top = gen_topology(rng, n_res or rng.randint(1, 6), p_odd=0.3)
+    while top_natoms(top) < 3:
+        top = gen_topology(rng, rng.randint(2, 6), p_odd=0.3)
+    na = top_natoms(top)
+    return {"kind": kind, "top": top, "unit": UNIT, "xyz": gen_xyz(rng, rng.randint(1, 3), na), "box": None}
+
+
+def atom_syms(top):
+    return [e for r in top for _a, e in r[2]]
+
+
+def atom_names(top):
+    return [a for r in top for a, _e in r[2]]
+
+
+def dyadic(rng, lo=1, hi=32, den=8):
+    return [rng.randint(lo, hi), den]
+
+
+# ---- centres
+def gen_centres_case(rng):
+    c = gen_geom_case(rng, "centres")
+    na = top_natoms(c["top"])
+    r = rng.random()
+    if r < 0.4:
+        idx = sorted(rng.sample(range(na), rng.randint(1, na)))
+        c["select"] = "index " + " ".join(str(i) for i in idx)
+        c["sel_expected"] = idx
+    elif r < 0.6:
+        nm = rng.choice(sorted(set(atom_names(c["top"]))))
+        c["select"] = "name %s" % nm if nm.isalnum() and not nm[0].isdigit() else None
+        c["sel_expected"] = [i for i, x in enumerate(atom_names(c["top"])) if x == nm] if c["select"] else None
+    else:
+        c["select"] = None
+    return c
+
+
+def check_centres(ctx, cases, results):
+    items = []  # (case index, what, model_fn, coq input, expected)
+    for i, (c, r) in enumerate(zip(cases, results)):
+        ctx.count(c, nontrivial=top_natoms(c["top"]) > 1, bucket="centres/%s" % ("select" if c.get("select") else "all"))
+        syms = atom_syms(c["top"])
+        for what in ("com", "cog", "com_sel"):
+            if what not in r:
+                continue
+            v = r[what]
+            if isinstance(v, dict) or not finite(v):
+                ctx.fail("compute_center_of_%s fails or returns non-finite values" % ("mass" if what != "cog" else "geometry"),
+                         c, observed=v, expected="finite centres", tags={"kind": "centres", "explained_by": None})
+                continue
+            exp = clist([cq(x) for x in flat_q(v)])
+            if what == "com":
+                items.append((i, what, "run_com_sym", "(%s, %s, %s, %s)" % (
+                    cqf("1e-11"), cz(UNIT), clist([cstr(x) for x in syms]), c_zframes(c["xyz"])), exp))
+            elif what == "cog":
+                items.append((i, what, "run_cog", "(%s, %s, %s)" % (cqf("1e-11"), cz(UNIT), c_zframes(c["xyz"])), exp))
+            else:
+                idx = c["sel_expected"]
+                if r.get("sel_idx") != idx:
+                    ctx.break_("correspondence:selection", "select %r gave %s, generator expected %s" % (
+                        c["select"], r.get("sel_idx"), idx))
+                    continue
+                items.append((i, what, "run_com_sym", "(%s, %s, %s, %s)" % (
+                    cqf("1e-11"), cz(UNIT), clist([cstr(syms[k]) for k in idx]),
+                    c_zframes([[f[k] for k in idx] for f in c["xyz"]])), exp))
+    for fn, ty in (("run_com_sym", "Q * Z * list string * list (list zvec)"), ("run_cog", "Q * Z * list (list zvec)")):
+        sub = [it for it in items if it[2] == fn]
+        bad, errs = ctx.coq_mismatches(["MD.Desc.AlgebraModel"], (ty, "list Q"), "close_res", fn,
+                                       [(it[3], it[4]) for it in sub], shard=100, prelude=QPRE)
+        if errs:
+            ctx.break_("correspondence:coqc-evaluation(centres)", "\n".join(errs))
+            continue
+        for k in bad:
+            i, what = sub[k][0], sub[k][1]
+            ctx.fail("compute_center_of_%s differs from sum(m_i r_i)/sum(m_i)" % ("geometry" if what == "cog" else "mass"),
+                     cases[i], observed=results[i][what], expected="Coq %s" % fn,
+                     tags={"kind": "centres", "what": what, "explained_by": None})
+
+
+# ---- radius of gyration
+def gen_rg_case(rng):
+    c = gen_geom_case(rng, "rg")
+    if rng.random() < 0.6:
+        na = top_natoms(c["top"])
+        c["masses"] = [dyadic(rng, 1, 40, 8) for _ in range(na)]
+        if rng.random() < 0.2:
+            c["masses"] = [[8, 8]] * na
+    else:
+        c["masses"] = None
+    return c
+
+
+def check_rg(ctx, cases, results):
+    jobs, coq = [], []
+    for i, (c, r) in enumerate(zip(cases, results)):
+        ctx.count(c, nontrivial=True, bucket="rg/%s" % ("masses" if c["masses"] else "default"))
+        v = r["rg"]
+        if isinstance(v, dict) or not finite(v):
+            ctx.fail("compute_rg fails or returns non-finite values", c, observed=v, expected="finite",
+                     tags={"kind": "rg", "explained_by": None})
+            continue
+        sq = [Fraction(n, d) ** 2 for n, d in v]
+        exp = clist([cqf(x) for x in sq])
+        na = top_natoms(c["top"])
+        ms = c["masses"] if c["masses"] else [[1, 1]] * na
+        for fix in (True, False):
+            jobs.append((i, fix))
+            coq.append(("(%s, %s, %s, %s, %s)" % (cqf("2e-5"), cbool(fix), cz(UNIT), clist([cq(m) for m in ms]),
+                                                  c_zframes(c["xyz"])), exp))
+    bad, errs = ctx.coq_mismatches(["MD.Desc.AlgebraModel"], ("Q * bool * Z * list Q * list (list zvec)", "list Q"),
+                                   "close_res", "run_rg2", coq, shard=100, prelude=QPRE)
+    if errs:
+        ctx.break_("correspondence:coqc-evaluation(rg)", "\n".join(errs))
+        return
+    badset = {jobs[k] for k in bad}
+    for i, c in enumerate(cases):
+        if (i, True) in badset:
+            cur_ok = (i, False) not in badset and (i, False) in jobs
+            ctx.fail("compute_rg(masses): value is not the mass-weighted radius of gyration about the centre of mass"
+                     if c["masses"] else "compute_rg: value differs from sqrt(mean |r - centre|^2)",
+                     c, observed=results[i]["rg"], expected="Coq rg2_fix",
+                     tags={"kind": "rg", "explained_by": "rg_centre_cur" if (cur_ok and c["masses"]) else None})
+
+
+# ---- gyration tensor and shape descriptors
+def check_shape(ctx, cases, results):
+    t_in, m_in, s_in, idx = [], [], [], []
+    for i, (c, r) in enumerate(zip(cases, results)):
+        ctx.count(c, nontrivial=True, bucket="shape")
+        bad = [k for k in ("tensor", "pm", "b", "c", "k") if isinstance(r[k], dict) or not finite(r[k])]
+        if bad or not r["alias"]:
+            ctx.fail("shape descriptor functions fail or return non-finite values (%s)" % bad, c, observed=r,
+                     expected="finite", tags={"kind": "shape", "explained_by": None})
+            continue
+        idx.append(i)
+        t_in.append(("(%s, %s, %s)" % (cqf("1e-10"), cz(UNIT), c_zframes(c["xyz"])), clist([cq(x) for x in flat_q(r["tensor"])])))
+        fl, fs = [], []
+        for f, lam, b, cc, k in zip(c["xyz"], r["pm"], r["b"], r["c"], r["k"]):
+            lamq = "(%s, %s, %s)" % (cq(lam[0]), cq(lam[1]), cq(lam[2]))
+            fl.append("(%s, %s)" % (clist([c_vec(v) for v in f]), lamq))
+            fs.append("(%s, %s, (%s, %s, %s))" % (clist([c_vec(v) for v in f]), lamq, cq(b), cq(cc), cq(k)))
+        m_in.append(("(%s, %s, %s)" % (cqf("1e-9"), cz(UNIT), clist(fl)), clist(["(Qmake 0 1)"] * (5 * len(fl)))))
+        s_in.append(("(%s, %s, %s)" % (cqf("1e-9"), cz(UNIT), clist(fs)), clist(["(Qmake 0 1)"] * (4 * len(fs)))))
+    for what, fn, ty, inp, desc in (
+            ("tensor", "run_gyration", "Q * Z * list (list zvec)", t_in,
+             "compute_gyration_tensor differs from (1/N) sum (r-c)(r-c)^T about the centre of geometry"),
+            ("pm", "run_moments", "Q * Z * list (list zvec * qvec)", m_in,
+             "principal_moments are not the ascending roots of the characteristic polynomial of the gyration tensor"),
+            ("shape", "run_shape", "Q * Z * list (list zvec * qvec * (Q * Q * Q))", s_in,
+             "asphericity/acylindricity/relative_shape_antisotropy differ from their formulas in the principal moments")):
+        bad, errs = ctx.coq_mismatches(["MD.Desc.AlgebraModel"], (ty, "list Q"), "close_res", fn, inp, shard=60, prelude=QPRE)
+        if errs:
+            ctx.break_("correspondence:coqc-evaluation(%s)" % what, "\n".join(errs))
+            continue
+        for k in bad:
+            ctx.fail(desc, cases[idx[k]], observed=results[idx[k]], expected="Coq %s" % fn,
+                     tags={"kind": "shape", "what": what, "explained_by": None})
+
+
+# ---- density
+def gen_density_case(rng):
+    c = gen_geom_case(rng, "density")
+    nf = len(c["xyz"])
+    c["box"] = [gen_box(rng, 64, 400) for _ in range(nf)] if rng.random() < 0.5 else gen_box(rng, 64, 400)
+    c["masses"] = [dyadic(rng, 1, 400, 16) for _ in range(top_natoms(c["top"]))] if rng.random() < 0.5 else None
+    return c
+
+
+def box_per_frame(c):
+    b = c["box"]
+    return b if isinstance(b[0], list) else [b] * len(c["xyz"])
+
+
+def check_density(ctx, cases, results):
+    sym_in, mass_in, si, mi = [], [], [], []
+    for i, (c, r) in enumerate(zip(cases, results)):
+        ctx.count(c, nontrivial=True, bucket="density/%s" % ("masses" if c["masses"] else "elements"))
+        v = r["density"]
+        if isinstance(v, dict) or not finite(v):
+            ctx.fail("density fails or returns non-finite values", c, observed=v, expected="finite",
+                     tags={"kind": "density", "explained_by": None})
+            continue
+        vols = clist([cqf(Fraction(b[0] * b[1] * b[2], UNIT ** 3)) for b in box_per_frame(c)])
+        exp = clist([cq(x) for x in v])
+        if c["masses"]:
+            mi.append(i)
+            mass_in.append(("(%s, %s, %s)" % (cqf("2e-6"), clist([cq(m) for m in c["masses"]]), vols), exp))
+        else:
+            si.append(i)
+            sym_in.append(("(%s, %s, %s)" % (cqf("2e-6"), clist([cstr(x) for x in atom_syms(c["top"])]), vols), exp))
+    for fn, ty, inp, ix in (("run_density", "Q * list Q * list Q", mass_in, mi),
+                            ("run_density_sym", "Q * list string * list Q", sym_in, si)):
+        bad, errs = ctx.coq_mismatches(["MD.Desc.AlgebraModel"], (ty, "list Q"), "close_res_rel", fn, inp, shard=100, prelude=QPRE)
+        if errs:
+            ctx.break_("correspondence:coqc-evaluation(density)", "\n".join(errs))
+            continue
+        for k in bad:
+            ctx.fail("density differs from total mass / cell volume * 1.66053878 (kg/m^3 per Da/nm^3)", cases[ix[k]],
+                     observed=results[ix[k]], expected="Coq %s" % fn, tags={"kind": "density", "explained_by": None})
+
+
+# ---- RDF
+def gen_rdf_case(rng, i):
+    c = gen_geom_case(rng, "rdf", n_res=rng.randint(2, 5))
+    na = top_natoms(c["top"])
+    c["box"] = gen_box(rng, 160, 330)
+    c["periodic"] = rng.random() < 0.7
+    npairs = rng.randint(1, 25)
+    c["pairs"] = [rng.sample(range(na), 2) for _ in range(npairs)]
+    c["opt"] = None if rng.random() < 0.7 else False
+    mode = i % 4
+    if mode == 0:      # n_bins given, edges on the 1/64 grid
+        r0 = rng.randint(0, 64)
+        w = rng.randint(4, 40)
+        n = rng.randint(1, 12)
+        c["r_range"], c["n_bins"], c["bin_width"] = [[r0, 64], [r0 + n * w, 64]], n, None
+    elif mode == 1:    # bin_width dividing the range exactly (dyadic)
+        r0 = rng.randint(0, 64)
+        w = rng.randint(4, 40)
+        n = rng.randint(1, 12)
+        c["r_range"], c["n_bins"], c["bin_width"] = [[r0, 64], [r0 + n * w, 64]], None, [w, 64]
+    elif mode == 2:    # bin_width not dividing the range: floor, bins stretched over the range
+        r0 = rng.randint(0, 32)
+        w = rng.randint(8, 40)
+        n = rng.randint(1, 8)
+        c["r_range"], c["n_bins"] = [[r0, 64], [r0 + n * w, 64]], None
+        c["bin_width"] = [w * 8 - rng.randint(1, 7 if n > 1 else 3), 64 * 8] if n * 8 // 7 == n else [w, 64]
+    else:              # decimal settings (not representable): default range and/or decimal widths
+        c["r_range"] = None if rng.random() < 0.5 else [list(float(x).as_integer_ratio()) for x in
+                                                        rng.choice([(0.0, 0.9), (0.1, 1.3), (0.25, 2.0), (0.0, 3.0)])]
+        if rng.random() < 0.5:
+            c["n_bins"], c["bin_width"] = rng.choice([3, 7, 10, 25]), None
+        else:
+            c["n_bins"] = None
+            c["bin_width"] = list(float(rng.choice([0.05, 0.1, 0.2, 0.07, 0.125])).as_integer_ratio())
+    return c
+
+
+def rdf_coq_case(c, tol="1e-5"):
+    rr = c["r_range"] or [[0, 1], [1, 1]]
+    if c["n_bins"] is not None:
+        b = "(inl %s)" % cnat(c["n_bins"])
+    else:
+        b = "(inr %s)" % cq(c["bin_width"] or list((0.005).as_integer_ratio()))
+    return "(%s, %s, %s, %s, %s, %s, %s, %s, %s)" % (cqf(tol), cz(UNIT), cq(rr[0]), cq(rr[1]), b, c_pairs_nat(c["pairs"]),
+                                                     c_vec(c["box"]), cbool(c["periodic"]), c_frames(c["xyz"]))
+
+
+def check_rdf(ctx, cases, results):
+    guards, errs = coq_values(ctx, ["MD.Desc.RdfModel"], "rcase", "run_rdf_guard", [rdf_coq_case(c) for c in cases])
+    if errs:
+        ctx.break_("correspondence:coqc-evaluation(rdf guard)", "\n".join(errs))
+        return
+    inp, idx = [], []
+    excl = 0
+    for i, (c, r) in enumerate(zip(cases, results)):
+        if guards[i] != [1]:
+            excl += 1
+            continue
+        ctx.count(c, nontrivial=len(c["pairs"]) > 1, bucket="rdf/%s%s" % (
+            "n_bins" if c["n_bins"] is not None else "bin_width", "/pbc" if c["periodic"] else ""))
+        if "err" in r or not finite(r["r"]) or not finite(r["g"]) or not r["same_len"]:
+            ctx.fail("compute_rdf fails or returns non-finite values", c, observed=r, expected="r, g(r)",
+                     tags={"kind": "rdf", "explained_by": None})
+            continue
+        idx.append(i)
+        inp.append((rdf_coq_case(c), clist([cqf(r["n"])] + [cq(x) for x in r["r"]] + [cq(x) for x in r["g"]])))
+        # documented meaning of bin_width: width of the bins
+        if c["n_bins"] is None:
+            rr = c["r_range"] or [[0, 1], [1, 1]]
+            bw = Fraction(*(c["bin_width"] or (0.005).as_integer_ratio()))
+            q = (Fraction(*rr[1]) - Fraction(*rr[0])) / bw
+            if abs(q - round(q)) < Fraction(1, 10 ** 9) and r["n"] != round(q):
+                ctx.fail("compute_rdf: (r_max - r_min)/bin_width is an integer up to rounding but one bin fewer is used "
+                         "(bins are wider than bin_width)", c, observed=r["n"], expected=int(round(q)),
+                         tags={"kind": "rdf", "explained_by": "rdf_nbins_float_truncation_cur"})
+    ctx.notes.setdefault("coverage_extra", {}).setdefault("excluded", {})["rdf_guard_band"] = excl
+    bad, errs = ctx.coq_mismatches(["MD.Desc.RdfModel"], ("rcase", "list Q"), "close_res_mixed", "run_rdf", inp, shard=40, prelude=QPRE)
+    if errs:
+        ctx.break_("correspondence:coqc-evaluation(rdf)", "\n".join(errs))
+        return
+    for k in bad:
+        ctx.fail("compute_rdf: bin count, bin centres or g(r) differ from counts/(n_pairs*sum(1/V)*4/3 pi (r_hi^3-r_lo^3))",
+                 cases[idx[k]], observed=results[idx[k]], expected="Coq run_rdf", tags={"kind": "rdf", "explained_by": None})
+
+
+# ---- DRID
+def gen_drid_case(rng):
+    c = gen_geom_case(rng, "drid", n_res=rng.randint(1, 4))
+    na = top_natoms(c["top"])
+    nb = rng.randint(0, na)
+    bonds = set()
+    for _ in range(nb):
+        a, b = rng.sample(range(na), 2)
+        bonds.add((a, b))
+    c["bonds"] = [list(b) for b in sorted(bonds)]
+    if rng.random() < 0.5:
+        k = rng.randint(2, na)
+        ai = rng.sample(range(na), k)
+        if rng.random() < 0.5:
+            ai.sort()
+        c["atom_indices"] = ai
+    else:
+        c["atom_indices"] = None
+    return c
+
+
+def cbrt(x):
+    return math.copysign(abs(x) ** (1.0 / 3.0), x)
+
+
+def check_drid(ctx, cases, results):
+    inp = []
+    for c in cases:
+        ai = c["atom_indices"] if c["atom_indices"] is not None else list(range(top_natoms(c["top"])))
+        inp.append("(%s, %s)" % (c_pairs_nat(c["bonds"]), clist([cnat(a) for a in ai])))
+    tables, errs = coq_values(ctx, ["MD.Desc.MomentsModel"], "list (nat * nat) * list nat", "run_drid_partners", inp)
+    if errs:
+        ctx.break_("correspondence:coqc-evaluation(drid partners)", "\n".join(errs))
+        return
+    for c, r, tab in zip(cases, results, tables):
+        ai = c["atom_indices"] if c["atom_indices"] is not None else list(range(top_natoms(c["top"])))
+        ctx.count(c, nontrivial=len(ai) > 2, bucket="drid/%s" % ("subset" if c["atom_indices"] is not None else "all"))
+        if any(len(row) == 0 for row in tab):
+            ctx.notes.setdefault("coverage_extra", {}).setdefault("excluded", {}).setdefault("drid_no_partner", 0)
+            ctx.notes["coverage_extra"]["excluded"]["drid_no_partner"] += 1
+            continue
+        if "err" in r or r["shape"] != [len(c["xyz"]), 3 * len(ai)] or not finite(r["x"]):
+            ctx.fail("compute_drid fails, returns a wrong shape or non-finite values", c, observed=r,
+                     expected=[len(c["xyz"]), 3 * len(ai)], tags={"kind": "drid", "explained_by": None})
+            continue
+        worst = None
+        for fi, f in enumerate(c["xyz"]):
+            for j, a in enumerate(ai):
+                xs = []
+                for b in tab[j]:
+                    m = sum((f[a][k] - f[b][k]) ** 2 for k in range(3))
+                    xs.append(UNIT / math.sqrt(m) if m else float("inf"))
+                if any(math.isinf(x) for x in xs):
+                    continue
+                n = len(xs)
+                mu = math.fsum(xs) / n
+                m2 = math.fsum((x - mu) ** 2 for x in xs) / n
+                m3 = math.fsum((x - mu) ** 3 for x in xs) / n
+                got = [Fraction(*r["x"][fi][3 * j + k]) for k in range(3)]
+                scale = max(xs)
+                e0 = abs(float(got[0]) - mu) / scale
+                e1 = abs(float(got[1]) ** 2 - m2) / scale ** 2
+                e2 = abs(float(got[2]) ** 3 - m3) / scale ** 3
+                e = max(e0, e1, e2)
+                if e > 1e-9 and (worst is None or e > worst[0]):
+                    worst = (e, fi, j, [float(g) for g in got], [mu, math.sqrt(m2), cbrt(m3)])
+        if worst:
+            ctx.fail("compute_drid: moments differ from mean / sqrt(2nd central) / cbrt(3rd central) of the reciprocal "
+                     "distances to the non-bonded selected atoms", c, observed=worst[3], expected=worst[4],
+                     tags={"kind": "drid", "frame": worst[1], "atom_slot": worst[2], "explained_by": None})
+
+
+# ---- Karplus
+PUBLISHED = {  # (phi0 in degrees, A, B, C); pinned against the source by theorem karplus_coefficients_published
+    "HA": {"Ruterjans1999": (-60, 7.90, -1.05, 0.65), "Bax2007": (-60, 8.4, -1.36, 0.33), "Bax1997": (-60, 7.09, -1.42, 1.55)},
+    "C": {"Bax2007": (180, 4.36, -1.08, -0.01)},
+    "CB": {"Bax2007": (60, 3.71, -0.59, 0.08)},
+}
+
+
+def gen_karplus_case(rng):
+    n_res = rng.randint(2, 7)
+    top = gen_topology(rng, n_res, p_odd=0.15, p_drop=0.1)
+    which = rng.choice(["HA", "C", "CB"])
+    model = rng.choice(sorted(PUBLISHED[which]) + [None])
+    return {"kind": "karplus", "top": top, "unit": UNIT, "xyz": gen_xyz(rng, rng.randint(1, 2), top_natoms(top)),
+            "box": None, "which": which, "model": model}
+
+
+def dihedral64(p0, p1, p2, p3):
+    import numpy as np
+    b1, b2, b3 = p1 - p0, p2 - p1, p3 - p2
+    c1, c2 = np.cross(b2, b3), np.cross(b1, b2)
+    return math.atan2(float(np.dot(b1, c1) * np.linalg.norm(b2)), float(np.dot(c2, c1)))
+
+
+def expected_phi_quads(top):
+    """[C(i-1), N(i), CA(i), C(i)] for consecutive residues of one chain (first atom of each name)"""
+    quads = []
+    base = 0
+    info = []
+    for rn, ch, atoms in top:
+        names = {}
+        for k, (a, _e) in enumerate(atoms):
+            names.setdefault(a, base + k)
+        info.append((ch, names))
+        base += len(atoms)
+    return info
+
+
+def check_karplus(ctx, cases, results):
+    import numpy as np
+    for c, r in zip(cases, results):
+        ctx.count(c, nontrivial="err" not in r and len(r.get("indices", [])) > 1, bucket="karplus/%s" % c["which"])
+        if "err" in r:
+            # compute_phi on a topology without any phi: mdtraj raises; nothing to compare
+            continue
+        if r["indices"] != r["phi_indices"] or r["shape"] != [len(c["xyz"]), len(r["indices"])]:
+            ctx.fail("compute_J3_HN_*: returned indices are not the phi quadruplets or the shape does not match them",
+                     c, observed=r["indices"], expected=r["phi_indices"], tags={"kind": "karplus", "explained_by": None})
+            continue
+        names = atom_names(c["top"])
+        resid = [ri for ri, rr in enumerate(c["top"]) for _ in rr[2]]
+        chain = [rr[1] for rr in c["top"] for _ in rr[2]]
+        for q in r["indices"]:
+            ok = ([names[a] for a in q] == ["C", "N", "CA", "C"] and resid[q[1]] == resid[q[2]] == resid[q[3]]
+                  and resid[q[0]] + 1 == resid[q[1]] and chain[q[0]] == chain[q[1]])
+            if not ok:
+                ctx.fail("compute_J3_HN_*: an index row is not (C of residue i-1, N, CA, C of residue i)", c,
+                         observed=q, expected="C,N,CA,C", tags={"kind": "karplus", "explained_by": None})
+        deg, A, B, C = PUBLISHED[c["which"]][c["model"] or "Bax2007"]
+        phi0 = deg * math.pi / 180.0
+        for fi, f in enumerate(c["xyz"]):
+            pts = np.array(f, dtype=np.float64) / UNIT
+            for k, q in enumerate(r["indices"]):
+                phi = float(Fraction(*r["phi"][fi][k])) if finite(r["phi"][fi][k]) else float("nan")
+                ref = dihedral64(*[pts[a] for a in q])
+                dphi = abs((phi - ref + math.pi) % (2 * math.pi) - math.pi)
+                if not (dphi < 2e-3):
+                    # degenerate (collinear) quadruplets are ill-conditioned: only flag clear disagreements
+                    b = [pts[q[1]] - pts[q[0]], pts[q[2]] - pts[q[1]], pts[q[3]] - pts[q[2]]]
+                    if min(np.linalg.norm(np.cross(b[0], b[1])), np.linalg.norm(np.cross(b[1], b[2]))) > 1e-2:
+                        ctx.fail("compute_phi: angle does not belong to the returned atom quadruplet", c,
+                                 observed=phi, expected=ref, tags={"kind": "karplus", "explained_by": None})
+                    continue
+                cs = math.cos(phi + phi0)
+                want = A * cs * cs + B * cs + C
+                if not finite(r["J"][fi][k]) or abs(float(Fraction(*r["J"][fi][k])) - want) > 1e-4 * (abs(A) + abs(B) + abs(C)):
+                    ctx.fail("compute_J3_HN_%s: J differs from A cos^2(phi+phi0) + B cos(phi+phi0) + C with the published "
+                             "coefficients" % c["which"], c, observed=r["J"][fi][k], expected=want,
+                             tags={"kind": "karplus", "explained_by": None})
+
+
+# ---- dipole moments
+def gen_dipole_case(rng):
+    c = gen_geom_case(rng, "dipole", n_res=rng.randint(1, 4))
+    na = top_natoms(c["top"])
+    c["box"] = [1024 + 64 * rng.randint(0, 4)] * 3
+    q = [rng.randint(-16, 16) for _ in range(na)]
+    if rng.random() < 0.7:
+        q[-1] -= sum(q)     # neutral
+    c["charges"] = [[x, 16] for x in q]
+    return c
+
+
+def check_dipole(ctx, cases, results):
+    for c, r in zip(cases, results):
+        ctx.count(c, nontrivial=True, bucket="dipole")
+        v = r["mu"]
+        if isinstance(v, dict) or not finite(v):
+            ctx.fail("dipole_moments fails", c, observed=v, expected="finite", tags={"kind": "dipole", "explained_by": None})
+            continue
+        q = [Fraction(*x) for x in c["charges"]]
+        for fi, f in enumerate(c["xyz"]):
+            want = [sum(q[a] * Fraction(f[a][k] - f[0][k], UNIT) for a in range(len(f))) for k in range(3)]
+            got = [Fraction(*v[fi][k]) for k in range(3)]
+            if all(abs(g - w) <= Fraction(1, 10 ** 9) for g, w in zip(got, want)):
+                continue
+            neg = all(abs(g + w) <= Fraction(1, 10 ** 9) for g, w in zip(got, want))
+            ctx.fail("dipole_moments: result is not sum_i q_i (r_i - r_0)" + (" (it is its negative)" if neg else ""),
+                     c, observed=[float(g) for g in got], expected=[float(w) for w in want],
+                     tags={"kind": "dipole", "explained_by": "dipole_sign_cur" if neg else None})
+            break
+
+
+# =====================================================================================
+# driver
+# =====================================================================================
+CHECKS = {"contacts": check_contacts, "squareform": check_squareform, "centres": check_centres, "rg": check_rg,
+          "shape": check_shape, "density": check_density, "rdf": check_rdf, "drid": check_drid,
+          "karplus": check_karplus, "dipole": check_dipole}
+
+
+def build_cases(ctx):
+    rng = ctx.rng
+    quick = ctx.tier == "quick"
+    cases = []
+    for i in range(150 if quick else 1500):
+        cases.append(gen_contacts_case(rng, i))
+    for i in range(30 if quick else 300):
+        cases.append(gen_squareform_case(rng))
+    k = 1 if quick else 10
+    cases += [gen_centres_case(rng) for _ in range(30 * k)]
+    cases += [gen_rg_case(rng) for _ in range(30 * k)]
+    cases += [gen_geom_case(rng, "shape") for _ in range(25 * k)]
+    cases += [gen_density_case(rng) for _ in range(20 * k)]
+    cases += [gen_rdf_case(rng, i) for i in range(40 * k)]
+    cases += [gen_drid_case(rng) for _ in range(30 * k)]
+    cases += [gen_karplus_case(rng) for _ in range(30 * k)]
+    cases += [gen_dipole_case(rng) for _ in range(12 * k)]
+    return cases
+
+
+def run_cases(ctx, cases):
+    results = run_impl(ctx, cases)
+    for kind, fn in CHECKS.items():
+        idx = [i for i, c in enumerate(cases) if c["kind"] == kind]
+        if idx:
+            fn(ctx, [cases[i] for i in idx], [results[i] for i in idx])
+
+
+def correspond(ctx):
+    ctx.notes.setdefault("coverage_extra", {})["bounds"] = BOUNDS
+    cases = build_cases(ctx)
+    ctx.log("cases:", len(cases))
+    run_cases(ctx, cases)
+
+
+def search(ctx, broken):
+    pass
+
+
+def replay(ctx, rec):
+    run_cases(ctx, [rec["case"]])
